@@ -88,37 +88,41 @@ Definition odv_all (s : sys) (es : list (nat * Q)) : sys := fold_left (fun s e =
 Definition set_staged (s : sys) (v : nat) (p : Q) : sys :=
   let x := s_var s v in set_var s v (mkVar (v_alive x) (v_pen x) p (v_want x) (v_elems x)).
 
-(* System::expand (without force_creation) *)
-Definition expand (s : sys) (c v : nat) (w : Q) : sys :=
+(* System::expand (without force_creation): expand_add_to_elem / expand_create_elem + the concurrency update *)
+Definition add_elem (s : sys) (c v : nat) (w : Q) : sys :=
   let x := s_var s v in
   let k := s_cn s c in
   let en := qnz (v_pen x) in
-  let s2 :=
-    match lookup c (v_elems x) with
-    | Some w0 =>
-        let w' := if c_shared k then Qplus w0 w else qmax w0 w in
-        let k' := mkCnst (c_limit k) (c_shared k) (if en then c_cur k - share w0 + share w' else c_cur k) (c_en k) (c_dis k) in
-        mkSys (s_nv s) (s_nc s)
-              (upd (s_var s) v (mkVar (v_alive x) (v_pen x) (v_staged x) (v_want x) (set_w c w' (v_elems x))))
-              (upd (s_cn s) c k')
-    | None =>
-        let k' := if en then mkCnst (c_limit k) (c_shared k) (c_cur k + share w) (v :: c_en k) (c_dis k)
-                  else mkCnst (c_limit k) (c_shared k) (c_cur k) (c_en k) (c_dis k ++ [v]) in
-        mkSys (s_nv s) (s_nc s)
-              (upd (s_var s) v (mkVar (v_alive x) (v_pen x) (v_staged x) (v_want x) (v_elems x ++ [(c, w)])))
-              (upd (s_cn s) c k')
-    end in
-  if en && (slack (s_cn s2 c) <? 0) then
+  match lookup c (v_elems x) with
+  | Some w0 =>
+      let w' := if c_shared k then Qplus w0 w else qmax w0 w in
+      let k' := mkCnst (c_limit k) (c_shared k) (if en then c_cur k - share w0 + share w' else c_cur k) (c_en k) (c_dis k) in
+      mkSys (s_nv s) (s_nc s)
+            (upd (s_var s) v (mkVar (v_alive x) (v_pen x) (v_staged x) (v_want x) (set_w c w' (v_elems x))))
+            (upd (s_cn s) c k')
+  | None =>
+      let k' := if en then mkCnst (c_limit k) (c_shared k) (c_cur k + share w) (v :: c_en k) (c_dis k)
+                else mkCnst (c_limit k) (c_shared k) (c_cur k) (c_en k) (c_dis k ++ [v]) in
+      mkSys (s_nv s) (s_nc s)
+            (upd (s_var s) v (mkVar (v_alive x) (v_pen x) (v_staged x) (v_want x) (v_elems x ++ [(c, w)])))
+            (upd (s_cn s) c k')
+  end.
+Definition expand (s : sys) (c v : nat) (w : Q) : sys :=
+  let x := s_var s v in
+  let s2 := add_elem s c v w in
+  if qnz (v_pen x) && (slack (s_cn s2 c) <? 0) then
     let s3 := disable_var s2 v in
     let s4 := odv_all s3 (v_elems (s_var s3 v)) in
     set_staged s4 v (v_pen x)
   else s2.
 
 (* update_variable_penalty.  [fx_odv]: call on_disabled_var on the constraints of a variable that gets disabled (repair of
-   the C18 defect); [fx_unst]: a staged variable that is given penalty 0 is un-staged (repair of the C15 defect). *)
-Definition update_penalty (fx_odv fx_unst : bool) (s : sys) (v : nat) (p : Q) : sys :=
+   the C18 defect); [fx_unst]: a staged variable that is given penalty 0 is un-staged (repair of the C15 defect).
+   [v_want] (the penalty last requested through the API) is ghost state of the model: the code never reads it. *)
+Definition set_want (s : sys) (v : nat) (p : Q) : sys :=
+  let x := s_var s v in set_var s v (mkVar (v_alive x) (v_pen x) (v_staged x) p (v_elems x)).
+Definition update_penalty_core (fx_odv fx_unst : bool) (s : sys) (v : nat) (p : Q) : sys :=
   let x := s_var s v in
-  let s := set_var s v (mkVar (v_alive x) (v_pen x) (v_staged x) p (v_elems x)) in
   if Qeq_bool p (v_pen x) then
     (if fx_unst && negb (qpos p) then set_staged s v 0 else s)
   else if qpos p && negb (qpos (v_pen x)) then
@@ -129,6 +133,9 @@ Definition update_penalty (fx_odv fx_unst : bool) (s : sys) (v : nat) (p : Q) : 
     if fx_odv then odv_all s1 (v_elems (s_var s1 v)) else s1
   else
     let y := s_var s v in set_var s v (mkVar (v_alive y) p (v_staged y) (v_want y) (v_elems y)).
+Definition update_penalty (fx_odv fx_unst : bool) (s : sys) (v : nat) (p : Q) : sys :=
+  if qpos p then update_penalty_core fx_odv fx_unst (set_want s v p) v p
+  else set_want (update_penalty_core fx_odv fx_unst s v p) v p.
 
 (* var_free: "for elem in cnsts_ : decrease, unlink, on_disabled_var(elem.constraint)".  The element is dropped from the
    model's list as soon as it is unlinked (the code clears cnsts_ at the end; nothing in between reads the freed
@@ -157,7 +164,7 @@ Definition step_gen (fx_odv fx_unst : bool) (s : sys) (o : op) : sys :=
   | NewC lim sh => mkSys (s_nv s) (S (s_nc s)) (s_var s) (upd (s_cn s) (s_nc s) (mkCnst lim sh 0 [] []))
   | NewV p => if Qnum p <? 0 then s
               else mkSys (S (s_nv s)) (s_nc s) (upd (s_var s) (s_nv s) (mkVar true p 0 p [])) (s_cn s)
-  | Expand c v w => if Nat.ltb c (s_nc s) && Nat.ltb v (s_nv s) && v_alive (s_var s v) then expand s c v w else s
+  | Expand c v w => if Nat.ltb c (s_nc s) && Nat.ltb v (s_nv s) && v_alive (s_var s v) && negb (Qnum w <? 0) then expand s c v w else s
   | Pen v p => if Nat.ltb v (s_nv s) && v_alive (s_var s v) && negb (Qnum p <? 0) then update_penalty fx_odv fx_unst s v p
                else s
   | Free v => if Nat.ltb v (s_nv s) && v_alive (s_var s v) then var_free s v else s
